@@ -136,6 +136,8 @@ func run(c *C) {
 		runUtf8(c)
 	case "C30":
 		runEqual(c)
+	case "C11", "C12", "C15", "C28":
+		runOps(c)
 	default:
 		panic("msg harness: unknown property " + c.Prop)
 	}
